@@ -72,6 +72,18 @@ class Ctx:
         if count < minimum:
             raise AnchorMissing("instance count `%s` = %d below floor %d" % (name, count, minimum))
 
+    def _samples(self):
+        """explicit samples plus one written-out obligation per rule (so every rule is represented)"""
+        out = list(self.samples[:8])
+        seen = set(x.get("rule") for x in out if isinstance(x, dict))
+        for o in self.obligations:
+            if o["rule"] not in seen:
+                seen.add(o["rule"])
+                out.append(o)
+            if len(out) >= 20:
+                break
+        return out or self.obligations[:6]
+
     def sample(self, s):
         if len(self.samples) < 12:
             self.samples.append(s)
@@ -108,7 +120,7 @@ class Ctx:
             "obligations_by_rule": {k: {"checked": v[0], "held": v[1]} for k, v in sorted(per_rule.items())},
             "rules_applied": self.rules,
             "functions_analysed": sorted(x for x in self.analysed["functions"] if x),
-            "samples": self.samples or [o for o in self.obligations[:6]],
+            "samples": self._samples(),
             "exhaustive": True,
             "undecided_clauses": self.undecided,
             "checker_cmd": checker_cmd or ("checks/check %s --tier %s" % (self.pid, self.tier)),
